@@ -132,6 +132,16 @@ class Interp:
                         self.stmt(cur, env)
             except _Break:
                 pass
+        elif k == 'try':
+            # a thrown C++ exception (raised by a model such as std::stoi, or by a `throw` in the analysed code) is taken by the
+            # first handler; which handler matches is not modelled (the callers only use it where there is one handler)
+            try:
+                self.stmt(s['body'], env)
+            except Thrown:
+                hs = s.get('handlers') or []
+                if len(hs) != 1:
+                    raise Unsupported('try with %d handlers' % len(hs))
+                self.stmt(hs[0]['body'], env)
         elif k == 'break':
             raise _Break()
         elif k == 'continue':
@@ -362,6 +372,17 @@ class Interp:
                 return self.models[name](self, e, env)
             if k == 'call' and (SX.callee(e) or '').startswith(('std::move', 'std::forward')) and len(SX.real_args(e)) == 1:
                 return self.expr(SX.real_args(e)[0], env)
+            if k == 'call' and SX.callee(e) in ('std::isdigit', 'isdigit') and len(SX.real_args(e)) == 1:
+                c = self.expr(SX.real_args(e)[0], env)
+                return isinstance(c, str) and len(c) == 1 and c.isdigit() and c.isascii()
+            if k == 'call' and SX.callee(e) in ('std::stoi', 'std::stol', 'std::stoll') and len(SX.real_args(e)) >= 1:
+                t = self.expr(SX.real_args(e)[0], env)
+                lim = 2 ** 31 if SX.callee(e) == 'std::stoi' else 2 ** 63
+                import re as _re
+                m = _re.match(r'\s*([+-]?\d+)', t) if isinstance(t, str) else None
+                if not m or not (-lim <= int(m.group(1)) < lim):
+                    raise Thrown(e)
+                return int(m.group(1))
             if k == 'call' and (SX.callee(e) or '').startswith('std::numeric_limits<') and name in ('max', 'min') and not SX.real_args(e):
                 t = SX.callee(e)
                 bits = 63 if ('long' in t or 'int64' in t) else 31
@@ -439,7 +460,12 @@ class Interp:
             if not e['items']:
                 if rec:
                     return self.default_struct(rec, env)
+                t = e.get('type', '')
+                if t in ('int', 'long', 'unsigned long', 'size_t', 'double', 'float', 'bool', 'char'):
+                    return False if t == 'bool' else 0
                 return None
+            if not rec and len(e['items']) == 1:
+                return self.expr(e['items'][0], env)      # scalar brace initialisation: int x{0}
             raise Unsupported('initlist ' + e['type'])
         if k == 'zeroinit':
             return 0
@@ -485,6 +511,13 @@ class Interp:
                 return o[st:st + a[1]] if len(a) > 1 else o[st:]
             if name in ('length',):
                 return len(o)
+            if name == 'front' and o:
+                return o[0]
+            if name == 'back' and o:
+                return o[-1]
+            if name == 'erase' and len(a) == 1 and isinstance(a[0], tuple) and a[0][0] == 'iter':
+                self.store(e['obj'], o[:a[0][1]] + o[a[0][1] + 1:], env)
+                return None
         if isinstance(o, (list, str, dict, set)) and not isinstance(o, Obj):
             if name == 'size':
                 return len(o)
